@@ -531,3 +531,17 @@ func ZZFetchObject(r *Repository, remoteName string, objectID Hash) error {
 	zzStore(r).CopyCommitsFrom(remote, objectID)
 	return nil
 }
+
+// ZZCloneSources maps a repository location to the store a clone of it shows.
+var ZZCloneSources = map[string]*zzmem.Store{}
+
+// ZZCloneAndFetchRepository models cloning: a repository handle over the
+// store registered for the location (the clone sees every object and
+// reference of the source).
+func ZZCloneAndFetchRepository(remoteURL, dir, initialBranch string, refs []string, bare bool) (*Repository, error) {
+	s := ZZCloneSources[remoteURL]
+	if s == nil {
+		return nil, errors.New("fatal: repository '" + remoteURL + "' not found")
+	}
+	return ZZNewModelRepo(s), nil
+}
